@@ -17,7 +17,7 @@ cargo test --offline $SPEC >> "$OUT.without.log" 2>&1; echo "rc_without=$?" >> "
 grep -E "^test result" "$OUT.without.log" >> "$OUT"
 git apply "$WT/_out/confirm_change.diff"
 echo "== full suite WITH change" >> "$OUT"
-cargo test --workspace --offline --no-fail-fast > "$OUT.suite.log" 2>&1; echo "rc_suite=$?" >> "$OUT"
+cargo test --workspace --offline --no-fail-fast --lib --bins --tests -j 8 > "$OUT.suite.log" 2>&1; echo "rc_suite=$?" >> "$OUT"
 grep -E "^test .* FAILED|^test result: FAILED|failed" "$OUT.suite.log" | sort | uniq -c | head -20 >> "$OUT"
 echo "passed=$(grep -c '\.\.\. ok$' "$OUT.suite.log") failed=$(grep -c '\.\.\. FAILED$' "$OUT.suite.log")" >> "$OUT"
 echo DONE >> "$OUT"
